@@ -34,6 +34,7 @@ type world struct {
 	sink    *sink
 	real    map[int]types.Hash256 // V profile: real sectors written through the volume manager
 	extra   []string              // directories to remove at the end
+	looseSlots bool               // after an interrupted migration: slot indices are no longer compared across sides
 	thorough bool
 }
 
@@ -203,7 +204,7 @@ func plus(xs []string) string {
 // doOp executes one op line: uninterrupted on the twin, with an injected failure at every k of ks on the
 // main side, crash copies at the indices of crash during the final uninterrupted run on the main side.
 // pick is called with the number of statement points when the line does not carry ks/crash itself.
-func (w *world) doOp(tr *vhlib.Trace, p vhlib.ParsedLine, pick func(n int, o *opDef) (ks, crash []int)) {
+func (w *world) doOp(tr *vhlib.Trace, p vhlib.ParsedLine, pick func(n int, kinds string, o *opDef) (ks, crash []int)) {
 	o, err := buildOp(p, w.b)
 	if err != nil {
 		tr.Line(p.Raw, "bad="+strings.ReplaceAll(err.Error(), " ", "_"))
@@ -224,7 +225,7 @@ func (w *world) doOp(tr *vhlib.Trace, p vhlib.ParsedLine, pick func(n int, o *op
 	if _, ok := p.Args["ks"]; ok {
 		ks, crash = ints(p.U64List("ks")), ints(p.U64List("crash"))
 	} else if pick != nil {
-		ks, crash = pick(n, o)
+		ks, crash = pick(n, tres.Kinds, o)
 	}
 	line := stripSweep(p.Raw) + fmt.Sprintf(" ks=%s crash=%s", vhlib.FmtList(ks), vhlib.FmtList(crash))
 
@@ -289,11 +290,20 @@ func (w *world) doOp(tr *vhlib.Trace, p vhlib.ParsedLine, pick func(n int, o *op
 		retry = "ok"
 	}
 	mainAfter := w.snap(w.main)
-	rdiff = mainAfter.diff(twinAfter)
+	if o.name == "MigrateSectors" && len(fs) > 0 {
+		// which empty slot a migrated sector lands in is the store's free choice; an interrupted and resumed
+		// migration may choose differently. From here on the two sides are compared modulo slot indices.
+		w.looseSlots = true
+	}
+	for _, c := range mainAfter.diff(twinAfter) {
+		if c == "sectors" && w.looseSlots {
+			continue
+		}
+		rdiff = append(rdiff, c)
+	}
 	if len(rdiff) > 0 || retry != twinRes {
 		eq = 0
 	}
-	cacheAfter := w.main.cacheDiff(w.b.liveIDs())
 	// 3. the crash copies: reopen each one as a fresh process would
 	var crs []string
 	for _, c := range copies {
@@ -305,12 +315,13 @@ func (w *world) doOp(tr *vhlib.Trace, p vhlib.ParsedLine, pick func(n int, o *op
 		dl = append(dl, k)
 	}
 	sort.Strings(dl)
-	tr.Count("op:" + o.name + ":" + twinRes)
-	tr.Line(line, fmt.Sprintf("twin=%s n=%d kinds=%s txs=%s f=%s diff=%s cr=%s retry=%s eq=%d rdiff=%s cache=%s integ=%s",
-		twinRes, n, orDash(tres.Kinds), orDash(tres.Txs), vhlib.FmtList(fs), plus(dl), vhlib.FmtList(crs), retry, eq, plus(rdiff), plus(cacheAfter), w.main.integrity()))
 	if twinRes == "ok" && o.onOK != nil {
 		o.onOK(w.b)
 	}
+	cacheAfter := w.main.cacheDiff(w.b.liveIDs()) // after the bookkeeping: a renewed predecessor is no longer live
+	tr.Count("op:" + o.name + ":" + twinRes)
+	tr.Line(line, fmt.Sprintf("twin=%s n=%d kinds=%s txs=%s f=%s diff=%s cr=%s retry=%s eq=%d rdiff=%s cache=%s integ=%s",
+		twinRes, n, orDash(tres.Kinds), orDash(tres.Txs), vhlib.FmtList(fs), plus(dl), vhlib.FmtList(crs), retry, eq, plus(rdiff), plus(cacheAfter), w.main.integrity()))
 }
 
 func orDash(s string) string {
